@@ -65,13 +65,13 @@ func jstr(s string) string {
 	return string(b)
 }
 
-// asciiSafe escapes everything outside printable ASCII injectively ("\" is escaped too),
+// asciiSafe escapes everything outside printable ASCII and the backslash itself, injectively,
 // because TLC's JSON reader does not preserve UTF-8.
 func asciiSafe(s string) string {
 	var sb strings.Builder
 	for i := 0; i < len(s); i++ {
 		c := s[i]
-		if c >= 0x20 && c < 0x7f && c != '\\' && c != '"' {
+		if c >= 0x20 && c < 0x7f && c != '\\' {
 			sb.WriteByte(c)
 		} else {
 			fmt.Fprintf(&sb, "\\x%02x", c)
